@@ -53,6 +53,36 @@ def h_named(B, named="MCA", n=4, p=2, q=2, k=2, cplx=False, use_pca=False):
     B.check(f"{named} does not store alpha; the general model stores it", "alpha" not in m1.get_params() and "alpha" in m2.get_params(), str(m1.get_params().keys()))
 
 
+_NONDEFAULT = {"n_modes": 3, "standardize": True, "use_coslat": True, "check_nans": False, "use_pca": False, "n_pca_modes": 2, "pca_init_rank_reduction": 0.7, "compute": False,
+               "sample_name": "s", "feature_name": "f", "solver": "full", "random_state": 5, "solver_kwargs": {"n_oversamples": 3}, "padding": "none", "decay_factor": 0.5, "center": False}
+
+
+def h_ctor(B, named="CCA"):
+    """every constructor argument of the named method, set to a non-default value, must arrive in the general model unchanged"""
+    import inspect
+
+    import xeofs.cross as xc
+
+    gen = ("ComplexCPCCA" if named.startswith("Complex") else "HilbertCPCCA" if named.startswith("Hilbert") else "CPCCA")
+    alpha = {"MCA": 1.0, "CCA": 0.0, "RDA": [0.0, 1.0]}[named.replace("Complex", "").replace("Hilbert", "")]
+    N, G = getattr(xc, named), getattr(xc, gen)
+    sig = [p_ for p_ in inspect.signature(N.__init__).parameters if p_ not in ("self", "kwargs", "args")]
+    kw = {}
+    for p_ in sig:
+        B.check(f"{named}: constructor argument {p_} has a non-default test value", p_ in _NONDEFAULT, "add a value to _NONDEFAULT")
+        if p_ in _NONDEFAULT:
+            kw[p_] = _NONDEFAULT[p_]
+    B.covers(f"{named}.__init__ -> {gen}.__init__")
+    m1 = N(**kw)
+    m2 = G(alpha=alpha, **kw)
+    p1 = {k_: v for k_, v in m1.get_params().items() if k_ != "alpha"}
+    p2 = {k_: v for k_, v in m2.get_params().items() if k_ != "alpha"}
+    diff = {k_: (p1.get(k_), p2.get(k_)) for k_ in set(p1) | set(p2) if repr(p1.get(k_)) != repr(p2.get(k_))}
+    B.check(f"{named}(**non-default arguments) stores the parameters of {gen}(alpha={alpha}, **same arguments)", not diff, f"differences (named, general): {diff}")
+    lost = {k_: (kw[k_], p1.get(k_)) for k_ in kw if k_ in p1 and repr(p1[k_]) != repr(kw[k_]) and not isinstance(p1[k_], (list, tuple))}
+    B.check(f"{named}: every argument is stored as given", not lost, f"given vs stored: {lost}")
+
+
 def h_complex_on_real(B, n=4, p=3, k=2, cross=False):
     if not cross:
         X = da2d(B, "x", n, p)
@@ -133,6 +163,8 @@ def configs(tier):
         add("h_named", f"{nm} vs CPCCA|p3q2|pca", named=nm, n=5, p=3, q=2, use_pca=True)
     add("h_named", "ComplexMCA vs ComplexCPCCA", named="ComplexMCA", cplx=True)
     add("h_named", "ComplexCCA vs ComplexCPCCA", named="ComplexCCA", cplx=True)
+    for nm in ("MCA", "CCA", "RDA", "ComplexMCA", "ComplexCCA", "ComplexRDA", "HilbertMCA", "HilbertCCA", "HilbertRDA"):
+        out.append({"key": f"constructor arguments|{nm}", "fn": "h_ctor", "params": {"named": nm}})
     add("h_complex_on_real", "ComplexEOF on real data")
     add("h_complex_on_real", "ComplexMCA on real data", cross=True)
     add("h_eeof1", "ExtendedEOF(embedding=1) vs EOF")
